@@ -2002,6 +2002,18 @@ def _aliases_param(mod, du: DefUse, nid: int, v: ast.AST, params, depth: int = 0
         return None
     if isinstance(v, ast.Name):
         ds = du.reaching(nid, v.id)
+        if not ds:
+            # a comprehension variable: an element of what the generator iterates over
+            for x in du.cfg.nodes[nid].walk():
+                if isinstance(x, (ast.ListComp, ast.GeneratorExp, ast.SetComp, ast.DictComp)):
+                    for g in x.generators:
+                        if any(isinstance(y, ast.Name) and y.id == v.id for y in ast.walk(g.target)):
+                            for y in ast.walk(g.iter):
+                                if isinstance(y, ast.Name) and y.id in params:
+                                    return y.id
+                            r = _aliases_param(mod, du, nid, g.iter, params, depth + 1)
+                            if r:
+                                return r
         for d in ds:
             if d.sel == (("param",),) and v.id in params:
                 return v.id
